@@ -1,3 +1,4 @@
+import PT.Lemmas.ViewComm
 import PT.Lemmas.MutRefs
 import PT.Props.C06
 import PT.Props.C07
@@ -123,5 +124,23 @@ theorem difference_mut_refs_distinct {L R : Type} (a : Tree w L) (b : Tree w R) 
   · have := (PT.C07.coveringDifference_order a b hwa hwb).map (·.1)
     simp only [List.map_map, Function.comp_def] at this
     exact this.nodup (slotEntries_slots_nodup hna)
+
+
+/-! ### `set` / `remove` through mutable views from two threads -/
+
+/-- `TrieViewMut::set` / `remove` on a view at a real node are writes of that node's value slot -/
+theorem view_set_remove_are_writes (m : PMap w V) (v : View w) (x : V) (hv : v.virt = none) :
+    (m.viewSet v x).1 = m.writeAt v.path (some x) ∧ (m.viewRemove v).1 = m.writeAt v.path none :=
+  ⟨PMap.viewSet_eq_writeAt m v x hv, PMap.viewRemove_eq_writeAt m v hv⟩
+
+/-- mutating disjoint sub-views concurrently by `set` / `remove` (which also move the shared entry
+counter): every interleaving `ws` of the two threads' write sequences `w1`, `w2` — addressing different
+existing nodes — ends in the same map, **entry counter included**, as `w1` followed by `w2` -/
+theorem view_set_remove_concurrent_eq_sequential {m : PMap w V} (h : m.Inv) (w1 w2 ws : List (List Bool × Option V))
+    (hi : Tree.Interleave w1 w2 ws)
+    (h1 : ∀ x ∈ w1, (m.root.sub x.1).isNil = false) (h2 : ∀ y ∈ w2, (m.root.sub y.1).isNil = false)
+    (hdis : ∀ x ∈ w1, ∀ y ∈ w2, x.1 ≠ y.1) :
+    PMap.applyViewWrites m ws = PMap.applyViewWrites m (w1 ++ w2) :=
+  PMap.view_writes_interleave h w1 w2 ws hi h1 h2 hdis
 
 end PT.C14
